@@ -66,9 +66,13 @@ def fastparquet_codes():
 
 class Scheduler:
     """strategy: ('random', p) | ('pct', d, horizon) | ('rr', q) |
-    ('coarse',) | ('replay', schedule dict)"""
+    ('fair', p0, grace) | ('coarse',) | ('replay', schedule dict)"""
 
-    def __init__(self, strategy, seed=0, nthreads=0):
+    def __init__(self, strategy, seed=0, nthreads=0, dense=False):
+        # dense: every source line of the package is a pre-emption point too
+        # (a superset of what a GIL build can do between two lines that hold
+        # no call or backward jump; exact for free-threaded builds)
+        self.dense = dense
         self.strategy = strategy
         self.kind = strategy[0]
         self.rng = random.Random(seed)
@@ -103,6 +107,15 @@ class Scheduler:
         elif self.kind == 'rr':
             self.quantum = strategy[1]
             self.since = 0
+        elif self.kind == 'fair':
+            # location-fair: the chance of a switch at a code location falls
+            # with the number of times the run has been there, so that code
+            # executed once (lazy initialisation, memo look-ups) is pre-empted
+            # as readily as the body of a decoding loop; after a switch the
+            # new thread runs `grace` points undisturbed
+            self.p0, self.grace_max = strategy[1], strategy[2]
+            self.hits = {}
+            self.grace = 0
 
     # ---------------------------------------------------------------- points
     def point(self, name, off):
@@ -110,7 +123,7 @@ class Scheduler:
         if tid is None or self.aborted:
             return
         self.npoints += 1
-        if self.npoints > STEP_CAP:
+        if self.npoints > (4 * STEP_CAP if self.dense else STEP_CAP):
             self.aborted = True
             return
         n = self.cnt[tid] = self.cnt.get(tid, 0) + 1
@@ -129,6 +142,18 @@ class Scheduler:
             if self.npoints in self.change:
                 self.prio[tid] = min(self.prio) - 1
             nxt = max(self.alive, key=lambda t: self.prio[t])
+        elif kind == 'fair':
+            key = (name, off)
+            c = self.hits[key] = self.hits.get(key, 0) + 1
+            if self.grace > 0:
+                self.grace -= 1
+                return
+            if self.rng.random() < max(0.0005, self.p0 / c):
+                nxt = self.rng.choice(self.alive)
+                if nxt != tid and self.grace_max:
+                    self.grace = self.rng.randrange(self.grace_max + 1)
+            else:
+                return
         elif kind == 'rr':
             self.since += 1
             if self.since < self.quantum:
@@ -165,6 +190,9 @@ class Scheduler:
     def _cb_cret(self, code, off, callable_, arg0):
         self.point(code.co_qualname, off)
 
+    def _cb_line(self, code, line):
+        self.point(code.co_qualname, -line)
+
     def install(self, codes):
         mon.use_tool_id(TOOL, 'verif-dst')
         for ev, cb in ((E.PY_START, self._cb_start),
@@ -173,14 +201,18 @@ class Scheduler:
                        (E.C_RETURN, self._cb_cret),
                        (E.C_RAISE, self._cb_cret)):
             mon.register_callback(TOOL, ev, cb)
+        evs = E.PY_START | E.PY_RESUME | E.JUMP | E.CALL
+        if self.dense:
+            mon.register_callback(TOOL, E.LINE, self._cb_line)
+            evs |= E.LINE
         for co in codes:
-            mon.set_local_events(TOOL, co, E.PY_START | E.PY_RESUME | E.JUMP
-                                 | E.CALL)
+            mon.set_local_events(TOOL, co, evs)
 
     def uninstall(self, codes):
         for co in codes:
             mon.set_local_events(TOOL, co, 0)
-        for ev in (E.PY_START, E.PY_RESUME, E.JUMP, E.C_RETURN, E.C_RAISE):
+        for ev in (E.PY_START, E.PY_RESUME, E.JUMP, E.C_RETURN, E.C_RAISE,
+                   E.LINE):
             mon.register_callback(TOOL, ev, None)
         mon.free_tool_id(TOOL)
 
